@@ -21,6 +21,10 @@ struct Event {              // one record of the execution trace
 struct Schedule {
     std::vector<uint32_t> choices;            // at a scheduling point with n > 1 enabled threads: enabled[choice % n]; exhausted: stay, else lowest id
     std::map<uint64_t, int64_t> latency_ms;   // backend I/O operation index -> virtual duration of that operation
+    // PCT-style priority schedule (used instead of `choices` when non-empty): pct[0..2] rank the virtual threads 0..2 (higher runs first);
+    // every further element is a change point: at the choice point with that index (low 31 bits) the thread that would run is demoted
+    // below all others; with the top bit set a sleeping thread is woken instead (time jump).  Always run the highest-ranked enabled thread.
+    std::vector<uint32_t> pct;
 };
 
 // One record per scheduling point at which a choice is consumed (>= 2 candidates among enabled threads and sleepers).
